@@ -477,6 +477,14 @@ impl<'ast, 'm> Visit<'ast> for EffVisitor<'m> {
             // in a fuelled function `opt.unwrap()` leaves the function with None (no value) when opt is None
             self.eff.ret = true;
         }
+        if n == "for_each" && i.args.len() == 1 {
+            // `place.iter_mut().for_each(|v| ..)` writes the place
+            if let Expr::MethodCall(r) = &*i.receiver {
+                if r.method == "iter_mut" {
+                    self.eff.assigned.insert(place_root(&r.receiver).unwrap_or_else(|| "<complex place>".into()));
+                }
+            }
+        }
         if n == "zip" && i.args.len() == 1 {
             // may drive an iterator value to a list (fuel): sequenced like a call
             self.eff.ret = true;
